@@ -39,7 +39,7 @@ def plan(tier, seed, build, scale):
     n = 4 if tier == "quick" else 5
     for m in MODES:
         deep = tier == "thorough" and m in ("all", "raise", "spawn")
-        units.append({"mode": "exhaustive", "cls": "h", "body": m, "maxlen": n + (1 if deep else 0), "cases": [0, 1], "timeout": 2400, "case_timeout": 2300})
+        units.append({"mode": "exhaustive", "cls": "h", "body": m, "maxlen": n + (1 if deep else 0), "cases": [0, 1], "timeout": 2400, "case_timeout": 150})
     units.append({"mode": "exhaustive", "cls": "debug", "body": "all", "maxlen": n, "cases": [0, 1]})
     nr = int((3000 if tier == "quick" else 60000) * scale)
     per = max(1, nr // 7)
@@ -492,6 +492,7 @@ def run_unit(unit, progress):
     os.dup2(devnull, 2)
 
     def one(cls, mode, seq):
+        tl.tick()
         if cls == "h":
             viol, nt, reached = run_h(mode, seq)
         else:
